@@ -21,6 +21,8 @@ def dispatch (line : String) : String :=
     else if cmd = "abort" then abortLine toks
     else if cmd = "timing" then timingLine toks
     else if cmd = "errstop" then errstopLine toks
+    else if cmd = "wrqsilent" then wrqsilentLine toks
+    else if cmd = "staleretx" then staleretxLine toks
     else if cmd = "multi" then multiLine toks
     else if cmd = "cfg" then cfgLine toks
     else if cmd = "loop" then loopLine toks
@@ -31,6 +33,7 @@ partial def loop (hin : IO.FS.Stream) (hout : IO.FS.Stream) : IO Unit := do
   let line ← hin.getLine
   if line.isEmpty then return ()
   hout.putStrLn (dispatch line)
+  hout.flush        -- one answer per line on disk at once: the check can tell which case a model run got stuck on
   loop hin hout
 
 def main : IO Unit := do
